@@ -40,7 +40,7 @@ def ecdbl (args : List String) : String :=
 
 def econ (args : List String) : String :=
   match args.mapM natOf with
-  | some [x, y] => if onCurve x y then "1" else "0"
+  | some [x, y] => if x < p ∧ y < p ∧ onCurve x y then "1" else "0"   -- coordinates are field elements (as repaired)
   | _ => "bad-op"
 
 def eckeygen (args : List String) : String :=
@@ -218,7 +218,9 @@ def cipherOfAsn1 (b : Bytes) : Option Bytes :=
               let xb := natBytes x.natAbs
               let yb := natBytes y.natAbs
               let pad (v : Bytes) := List.replicate (32 - v.length) (0 : Byte) ++ v
-              some (0x04 :: (pad xb ++ pad yb ++ h ++ c2))
+              -- as repaired: coordinates are field-sized non-negative integers, C3 is a 32-byte digest
+              if x < 0 ∨ y < 0 ∨ xb.length > 32 ∨ yb.length > 32 ∨ h.length ≠ 32 then none
+              else some (0x04 :: (pad xb ++ pad yb ++ h ++ c2))
             | _, _ => none
           | _ => none
         | none => none
